@@ -2,7 +2,7 @@
 # try_patch_copy.sh <patch.diff> <label> [props...] : apply a patch to a private COPY of the repository and run checks against it
 P=$1; L=$2; shift 2
 PROPS=${@:-"C01 C02 C03 C04 C05 C06 C07 C08 C09 C10 C11 C12 C13 C14 C15 C16 C18"}
-D=/tmp/bp_$L; rm -rf $D; cp -r /tmp/cleanrepo $D; (cd $D && git apply $P) || { echo "$L APPLY-FAILED"; exit 3; }
+D=/tmp/bp_$L; rm -rf $D; mkdir -p $D; rsync -a --exclude target --exclude .git /repo/ $D/; (cd $D && git apply $P) || { echo "$L APPLY-FAILED"; exit 3; }
 HERE=$(dirname $(dirname $(readlink -f $0)))
 cd $HERE
 res=""
